@@ -52,7 +52,7 @@ theorem nullable_of_print_nil (D : Defs) (op : OpInst) (d : SDir) (hfrag : inFra
     | single => obtain ⟨x, hx⟩ := len1 hinst; simp [printS, hx, commaSep] at h
     | opt => rfl
     | var => rfl
-  | attr name isProp optional optParse dflt =>
+  | attr name isProp optional dflt =>
     cases optional with
     | true => rfl
     | false =>
@@ -98,7 +98,7 @@ theorem first_of_print (D : Defs) (op : OpInst) (d : SDir) (hfrag : inFragment d
     cases hx : seg op.succs i with
     | nil => simp [hx, commaSep] at h
     | cons x xs => simp [commaSep, firstS, clsOf]
-  | attr name isProp optional optParse dflt =>
+  | attr name isProp optional dflt =>
     simp only [printS] at h ⊢
     cases hg : dictGet isProp op name with
     | none => simp [hg] at h
@@ -155,32 +155,25 @@ def replaySeq (D : Defs) (op : OpInst) : List SDir → PState → PState
 
 /-- a sequence of simple directives (top level, then-branch after the first element, else-branch)
 parses back what it printed -/
-theorem parseSeq_printSeq (D : Defs) (op : OpInst) (a : Option SDir) (ds : List SDir) (K : List Cls)
+theorem parseSeq_printSeq (D : Defs) (op : OpInst) (ds : List SDir) (K : List Cls)
     (rest : List Tok) (st : PState)
-    (hwf : wfSeq a ds K = true)
+    (hwf : wfSeq ds K = true)
     (hfrag : ∀ d ∈ ds, inFragment d = true)
     (hinst : ∀ d ∈ ds, okInst op d)
-    (hanch : ∀ d ∈ ds, a = some d → okShape d = false → printS D op d ≠ [])
     (hK : clsHd rest ∈ K) :
     parseSeq D ds (printSeq D op ds ++ rest) st = some (replaySeq D op ds st, rest) := by
   induction ds generalizing st with
   | nil => simp [parseSeq, printSeq, replaySeq]
   | cons d ds ih =>
-    simp only [wfSeq, Bool.and_eq_true, Bool.or_eq_true] at hwf
-    obtain ⟨⟨hshape, hfol⟩, hwf'⟩ := hwf
+    simp only [wfSeq, Bool.and_eq_true] at hwf
+    obtain ⟨hfol, hwf'⟩ := hwf
     have hfr' : ∀ x ∈ ds, inFragment x = true := fun x hx => hfrag x (List.mem_cons_of_mem _ hx)
     have hin' : ∀ x ∈ ds, okInst op x := fun x hx => hinst x (List.mem_cons_of_mem _ hx)
     have hfirst := clsHd_printSeq D op ds K rest hfr' hin' hK
     have hf := followOK_of_okFollow hfol hfirst
-    have hsh : okShape d = true ∨ printS D op d ≠ [] := by
-      rcases hshape with h | h
-      · exact Or.inl h
-      · by_cases hs : okShape d = true
-        · exact Or.inl hs
-        · exact Or.inr (hanch d (List.mem_cons_self ..) (by simpa using h) (by simpa using hs))
-    obtain ⟨b, hb⟩ := parseS_printS D op d (printSeq D op ds ++ rest) st (hfrag d (List.mem_cons_self ..)) hsh
+    obtain ⟨b, hb⟩ := parseS_printS D op d (printSeq D op ds ++ rest) st (hfrag d (List.mem_cons_self ..))
       (hinst d (List.mem_cons_self ..)) hf
     simp only [printSeq, List.append_assoc, parseSeq, hb, replaySeq]
-    exact ih _ hwf' hfr' hin' (fun x hx => hanch x (List.mem_cons_of_mem _ hx))
+    exact ih _ hwf' hfr' hin'
 
 end Xdsl.DeclFormat
